@@ -211,7 +211,7 @@ pub fn dump_coq(d: &CDump) -> String {
                 .iter()
                 .enumerate()
                 .filter(|(_, b)| !matches!(b, CBin::Empty))
-                .map(|(i, b)| format!("({},{})", i, bin_coq(b)))
+                .map(|(i, b)| format!("B_ {} ({})", i, bin_coq(b)))
                 .collect();
             format!("mkD {} [{}] {} {}", t.bins.len(), bins.join(";"), z(d.sc), z(d.cnt))
         }
